@@ -125,7 +125,6 @@ fn real_main(args: &[String]) -> i32 {
             0
         }
         Some("determinism") => driver::determinism_cmd(args.get(2).and_then(|s| s.parse().ok()).unwrap_or(20_000)),
-        Some("bigstack") => lanes::bigstack_child(&args[2]),
         Some("alloccount") => {
             let t = load_trace(&args[2]);
             run::ALLOC_FAIL_LAST.store(-1, Relaxed);
